@@ -803,7 +803,9 @@ class QueryBuilder(Selectable, Term):  # type:ignore[misc]
             raise QueryException("Unsupported update_field")
 
         if update_value is not None:
-            self._on_conflict_do_updates.append((field, ValueWrapper(update_value)))
+            # a term is stored as it is (replace_table, field collection and parameterisation see into it)
+            value = update_value if isinstance(update_value, Term) else ValueWrapper(update_value)
+            self._on_conflict_do_updates.append((field, value))
         else:
             self._on_conflict_do_updates.append((field, None))
 
